@@ -15,7 +15,7 @@ import (
 func Esc(s string) string {
 	var b strings.Builder
 	for _, r := range s {
-		if r >= 0x20 && r <= 0x7e && !strings.ContainsRune("\\|;^,@=", r) {
+		if r >= 0x20 && r <= 0x7e && !strings.ContainsRune("\\|;^,@=~", r) {
 			b.WriteRune(r)
 		} else {
 			b.WriteString("\\u{" + strconv.FormatInt(int64(r), 16) + "}")
